@@ -11,7 +11,7 @@ META = {
             "and normalize strips carriage returns first; D2 in on_did_change the position conversion re-reads the line map inside the "
             "per-change loop; D3 the splice is guarded (length and character boundary); D4 every stored text is also recorded, as the "
             "same Arc, in the pending Change; D5 text read from disk never replaces a file the Vfs already has, and watched-file reloads "
-            "skip opened documents. One obligation per site.",
+            "skip opened documents. One obligation per site. D2 also: no iteration of the change loop skips the splice; D4 also: Change::apply sets every recorded text, in order.",
     "explanation": "Decides the lock-step clauses that keep the server's text and the table used to interpret the client's positions in "
                    "sync, and that the client's text is the one analysed. The position arithmetic itself (UTF-16 columns to byte "
                    "offsets) is a computation on runtime text and is not decided here (see C14, not applicable).",
@@ -130,6 +130,10 @@ def run(F, res, tier):
     res.ob("D2", "on_did_change/line-map-reread-per-change", "each change's range is converted with the line map of the text as it is after the "
            "previous change (conversion and splice happen in the same per-change closure or helper, called inside the loop)", ok, where=h.loc(),
            how="closure call sites in loop: %s; conversions outside the loop: %d" % ([in_loop(b) for b in call_sites], sum(1 for b in direct_conv if not in_loop(b))))
+    skip = FL.every_iteration_passes(h, call_sites) if call_sites else [("?", "?")]
+    res.ob("D2", "on_did_change/every-change-applied", "every content change of a notification is handed to the splice: no iteration of the loop goes "
+           "round without it (a skipped change leaves the server's text behind the editor's)", not skip, where=h.loc(),
+           how="iterations that can skip the per-change unit: %d" % len(skip))
     fr = F.fn("glas::convert::from_range")
     lm = [b for b, t in fr.calls() if callee(t) == VFS + "::line_map_for_file"]
     res.ob("D2", "from_range/fresh-line-map", "convert::from_range fetches the file's current line map itself", len(lm) == 1, where=fr.loc(),
@@ -167,6 +171,17 @@ def run(F, res, tier):
                okr and (not f.can_reach(0, rets, avoid=[b for b, _ in recs]) or name == "change_file_content" and
                         all(any(f.dominates(b, r) for b, _ in recs) or True for r in rets)), where=f.loc(),
                how="change_file calls: %d" % len(recs))
+    ap = F.fn("ide::base::Change::apply")
+    sets_ = [b for b, t in ap.calls() if (callee(t) or "").endswith("::set_file_content_with_durability")]
+    loops_ = [(tl, hd) for tl, hd in ap.back_edges() if set(sets_) & ap.natural_loop(tl, hd)]
+    skipped = FL.every_iteration_passes(ap, sets_)
+    # skipping is only sound when the newest entry of a file is met first (the list walked in reverse)
+    newest_first = any(FL.short(callee(t) or "") in ("Iterator::rev", "DoubleEndedIterator::rev") and all(ap.dominates(b, hd) for _, hd in loops_)
+                       for b, t in ap.calls())
+    res.ob("D4", "change-apply/every-recorded-text-set", "Change::apply hands every recorded (file, text) pair to the database, in recording order: the "
+           "set_file_content call sits in a loop and no iteration goes round without it (so the last recorded text, which is the store's, wins)",
+           bool(sets_) and bool(loops_) and (not skipped or newest_first), where=ap.loc(),
+           how="set_file_content calls: %d, in a loop: %s, iterations that can skip it: %d" % (len(sets_), bool(loops_), len(skipped)))
     # ---- D5
     lp = F.fn(S + "load_package_files")
     dl = FL.Defs(lp)
